@@ -46,7 +46,7 @@ def nested_in_message(items):
     return False
 
 
-def single_use_schemas():
+def single_use_schemas(full=False):
     out = []
     for p in wiregen.PRIMS:
         for pos, ft in (("plain", p), ("arr", p + "[]"), ("arr2", p + "[][]"), ("mapkey", "map[%s, bool]" % p), ("mapval", "map[uint8, %s]" % p), ("maparr", "map[uint8, %s[]]" % p)):
@@ -66,9 +66,17 @@ def single_use_schemas():
     out.append("message M0 {}\n")
     out.append("struct S { E0 e; }\nstruct E0 {}\n")
     out.append("readonly struct R { date d; }\n")
-    for nm in ("Buf", "Io", "Time", "W", "V", "Err", "At", "I", "K", "Bbp", "Elem", "Ln", "Iow", "Ior"):      # names whose private form is an identifier the generated code uses
-        out.append("struct %s { date d; string[] s; map[string, int32] m; }\n" % nm)
-        out.append("message %s { 1 -> date d; 2 -> string[] s; }\n" % nm)
+    # record / enum names against what the generated code itself uses: lower-case names (declared capitalised, so every reference must be too), and names whose
+    # private form is a Go keyword, a predeclared identifier, an imported package or a variable of the generated functions (Generate must refuse those)
+    names = ["point", "r", "buf", "io", "time", "iohelp", "bebop", "w", "v", "err", "at", "i", "k", "k1", "ln2", "bbp", "elem", "iow", "ior", "bodyLen", "tmp", "baseReader",
+             "type", "func", "range", "go", "len", "make", "new", "nil", "copy", "error", "int", "byte_", "any", "print", "append", "math", "sync", "fmt", "string_", "true_"]
+    if full:
+        names += ("break default interface select case defer map_ struct_ chan else goto package switch const_ fallthrough if for import_ return var continue "
+                  "complex64 complex128 rune uint uintptr iota cap close complex delete imag panic println real recover comparable min max clear unsafe bytes errors strings "
+                  "uint8_ int32_ float64_ bool_ i1 i2 v1 v2 ln1 elem1").split()
+    for nm in names:
+        for cap in (nm, nm[0].upper() + nm[1:]):
+            out.append("struct %s { date d; string[] s; map[string, int32] m; }\nmessage %sM { 1 -> %s a; 2 -> %s[] b; }\nenum %sE { A = 1; }\nunion %sU { 1 -> struct %sB { %sE e; } }\n" % ((cap,) * 8))
     out.append("[opcode(\"ABCD\")]\nstruct O { guid g; }\n")
     return out
 
@@ -136,7 +144,7 @@ def check(tier, seed, replay=None):
                     run.violation({"what": "the generator panics on an accepted schema", "schema": txt, "option_set": wirerun.opt_label(o), "detail": se[-600:]})
         # (c) single-use schemas: one type in one position in one kind of record and nothing else, so that every import and helper the
         #     generated file needs has to be derived from that one use
-        for j, txt in enumerate(single_use_schemas()):
+        for j, txt in enumerate(single_use_schemas(tier == "thorough")):
             bop = os.path.join(d, "u%d.bop" % j)
             open(bop, "w").write(txt)
             for o in (opts if tier == "thorough" else [0, 31]):
@@ -165,8 +173,6 @@ def check(tier, seed, replay=None):
             continue
         tally["err"] += 1
         if items is not None and nested_in_message(items) and run.known(*KEY_NESTED):
-            continue
-        if private_collision(txt, o, line) and run.known(*KEY_COLLIDE):
             continue
         found = True
         if len(run.violations) < 4:
